@@ -80,8 +80,6 @@ Definition get_arch (s : str) : option (str * N) :=
 Definition parse_numv (s : str) : vres := match parse_num s with POk n => VOk n | PErr _ => VErr end.
 
 (* by field code *)
-Definition uid_fields : list N := [1; 2; 3; 4; 9; 109].
-Definition gid_fields : list N := [5; 6; 7; 8; 110].
 Definition parse_value (f : N) (s : str) : vres :=
   if existsb (N.eqb f) uid_fields || existsb (N.eqb f) gid_fields then parse_id s
   else if f =? 103 then parse_exit s
@@ -91,17 +89,6 @@ Definition parse_value (f : N) (s : str) : vres :=
   else if f =? 108 then parse_filetype s
   else if f =? 113 then match parse_numv s with VOk n => if (n =? 2) || (n =? 10) then VOk n else VErr | r => r end
   else parse_numv s.
-
-(* what ToCommandLine prints for a non-string field (the rhs only) *)
-Definition print_value (f v : N) : option str :=
-  if f =? 11 then display_arch v
-  else if f =? 103 then
-    let code := if v <? 2147483648 then Z.of_N v else (Z.of_N v - 4294967296)%Z in
-    Some (match lookupZ (- code)%Z errno_to_name with Some nm => "-"%char :: s2l nm | None => dec_i32 v end)
-  else if existsb (N.eqb f) uid_fields || existsb (N.eqb f) gid_fields then Some (dec_i32 v)
-  else if f =? 12 then Some (if v <=? 65535 then type_name v else dec v)
-  else if f =? 106 then Some (perm_string v)
-  else Some (dec v).
 
 (* addSyscall's number: strconv.Atoi, else the name in the table of the rule's arch *)
 Definition syscall_number (arch : str) (s : str) : option N :=
